@@ -12,7 +12,7 @@ import (
 func VerifC01ItemFields() {
 	n := verifrt.Param("runes", 1)
 	// exactly one field per run carries the hostile string
-	fields := []string{"name", "content", "att", "h", "l", "q", "user", "bio", "type"}
+	fields := []string{"name", "content", "att", "h", "l", "q", "user", "bio", "type", "atturl"}
 	hot := fields[verifrt.Choice("field", len(fields))]
 	raw := func(name string) string {
 		if name != hot {
@@ -26,7 +26,7 @@ func VerifC01ItemFields() {
 	}
 	width := verifrt.Int("width", 1, verifrt.Param("maxw", 12))
 	var item Tangible
-	kind := map[string]int{"name": 0, "content": 0, "att": 0, "h": 1, "l": 1, "q": 1, "user": 2, "bio": 2, "type": 3}[hot]
+	kind := map[string]int{"name": 0, "content": 0, "att": 0, "h": 1, "l": 1, "q": 1, "user": 2, "bio": 2, "type": 3, "atturl": 4}[hot]
 	if hot == "name" && verifrt.Choice("onactor", 2) == 1 {
 		kind = 2
 	}
@@ -47,6 +47,14 @@ func VerifC01ItemFields() {
 		a, err := NewActorFromObject(o, nil)
 		verifrt.Assert(err == nil, "actor-built")
 		item = a
+	case 4: // a nameless attachment is labelled by its URL, which may hold any percent-escape
+		h1, h2 := verifrt.Byte("hex"), verifrt.Byte("hex")
+		verifrt.Assume(verifrt.All(verifrt.InSet(h1, "0123456789abcdefABCDEF"), verifrt.InSet(h2, "0123456789abcdefABCDEF")))
+		o := object.Object{"type": "Note", "content": "c",
+			"attachment": []any{map[string]any{"type": "Document", "url": "https://a.example/d%" + string([]byte{h1, h2}) + "%5B2J"}}}
+		p, err := NewPostFromObject(o, nil)
+		verifrt.Assert(err == nil, "post-built")
+		item = p
 	default: // a post whose type string is hostile: the error item quotes it
 		o := object.Object{"type": "X" + raw("type"), "content": "c"}
 		item = NewTangible(map[string]any(o), nil)
